@@ -285,6 +285,10 @@ impl EncryptedWalletSeed {
 
 	/// Decrypt seed
 	pub fn decrypt(&self, password: &str) -> Result<WalletSeed, Error> {
+		// the hex decoder panics inside multi-byte characters
+		if !(self.encrypted_seed.is_ascii() && self.salt.is_ascii() && self.nonce.is_ascii()) {
+			return Err(Error::Encryption);
+		}
 		let mut encrypted_seed = match util::from_hex(&self.encrypted_seed.clone()) {
 			Ok(s) => s,
 			Err(_) => return Err(Error::Encryption),
@@ -307,6 +311,9 @@ impl EncryptedWalletSeed {
 			&mut key,
 		);
 
+		if nonce.len() < 12 {
+			return Err(Error::Encryption);
+		}
 		let mut n = [0u8; 12];
 		n.copy_from_slice(&nonce[0..12]);
 		let unbound_key = aead::UnboundKey::new(&aead::CHACHA20_POLY1305, &key).unwrap();
